@@ -185,6 +185,78 @@ def expand_rules(cfg, limit):
     return sorted(show(t) for t in go(cfg.start))
 
 
+def lang_shape(tt):
+    """From the oracle alone (no use of the implementation): shape of the UNBOUNDED language of
+    well-typed terms described by `tt` (a TypedTerms with a huge depth bound and min_var 0):
+    (finite?, has_application?, size or None).  States are (forbidden set, type); a state is
+    useful if it is productive and reachable from the start through rules whose arguments are
+    all productive; the language is finite iff no useful state reaches itself."""
+    start = (tt.forb(None), tt.ret)
+    rules = {}
+    todo = [start]
+    while todo:
+        s = todo.pop()
+        if s in rules:
+            continue
+        rs = []
+        for h, a in tt.heads(0, s[0], s[1]):
+            kids = [(tt.forb((h, i)), at) for i, at in enumerate(a)]
+            rs.append(kids)
+            todo.extend(kids)
+        rules[s] = rs
+    prod = set()
+    changed = True
+    while changed:
+        changed = False
+        for s, rs in rules.items():
+            if s not in prod and any(all(k in prod for k in kids) for kids in rs):
+                prod.add(s)
+                changed = True
+    if start not in prod:
+        return True, False, 0
+    good = {s: [kids for kids in rs if all(k in prod for k in kids)] for s, rs in rules.items() if s in prod}
+    useful, todo = {start}, [start]
+    while todo:
+        s = todo.pop()
+        for kids in good[s]:
+            for k in kids:
+                if k not in useful:
+                    useful.add(k)
+                    todo.append(k)
+    has_app = any(kids for s in useful for kids in good[s])
+    # cycle detection (iterative DFS, colours) and size by memoised recursion on the DAG
+    colour, size = {}, {}
+    stack = [(start, 0)]
+    order = []
+    while stack:
+        s, st = stack.pop()
+        if st == 0:
+            if colour.get(s) == 2:
+                continue
+            if colour.get(s) == 1:
+                return False, has_app, None
+            colour[s] = 1
+            stack.append((s, 1))
+            for kids in good[s]:
+                for k in kids:
+                    if colour.get(k) == 1:
+                        return False, has_app, None
+                    if colour.get(k) != 2:
+                        stack.append((k, 0))
+        else:
+            colour[s] = 2
+            order.append(s)
+    for s in order:
+        total = 0
+        for kids in good[s]:
+            local = 1
+            for k in kids:
+                local *= size[k]
+            total += local
+        size[s] = total
+    return True, has_app, size[start]
+
+
 def reach_prod(cfg):
     """independent reachability / productivity of the implementation's table"""
     rules = cfg.rules
@@ -346,8 +418,6 @@ def check(case, M):
                 fail("corr", "rule table of CFG.infinite differs from the model's table", f"{len(impl_tbl)} vs {len(model_tbl)} non-terminals; first difference: {sorted(set(impl_tbl) ^ set(model_tbl))[:1]}")
             if str(ians[3]) != str(cfg.programs()):
                 fail("corr", "programs() of CFG.infinite differs from the model (programsInf: dict order)", f"{cfg.programs()} vs {ians[3]}")
-            if cfg.programs() >= 0 and cfg.programs() < len(terms):
-                fail("oracle", "programs() of CFG.infinite is smaller than the number of well-typed terms", f"{cfg.programs()} vs at least {len(terms)}")
             for t_repo, sb, b in zip(probe_repo, ians[1], ians[4]):
                 if b[0] != b[1]:
                     raise RuntimeError("containsRec and gen disagree (contradicts theorem C01_contains_gen)")
@@ -359,6 +429,21 @@ def check(case, M):
                     break
         else:
             fail("corr", "model builds no infinite table where the implementation does", "")
+        # ---- the statement for programs() of CFG.infinite: the size of the language when it is
+        # finite, -1 (recursive) otherwise; finiteness and size decided from the oracle alone, for
+        # the language the n-gram width can express (so that C01-F2 does not interfere)
+        shape = lang_shape(TypedTerms(prims, forb, request, 10 ** 9, 0, const_types, rec, see_parent=(ng >= 2 or ng < 0)))
+        finite, has_app, size = shape
+        want_programs = size if finite else -1
+        tags.append("infinite:finite-language" if finite else "infinite:infinite-language")
+        if cfg.programs() != want_programs:
+            f = {"kind": "oracle", "what": "programs() of CFG.infinite is not the size of the language (-1 iff the language is infinite)",
+                 "detail": f"programs() = {cfg.programs()}, language {'of size ' + str(size) if finite else 'infinite'}"}
+            if finite and has_app:
+                f["finding"] = "C01-F5"     # classifier: CFG.infinite, finite language, some term has an argument
+            failures.append(f)
+        if (cfg.programs() == -1) != cfg.is_recursive():
+            failures.append({"kind": "oracle", "what": "is_recursive() disagrees with programs() == -1", "detail": ""})
     for t, t_repo in zip(terms, members):
         if not (t_repo in cfg):
             fail("oracle", "a well-typed term is not a member", str(t_repo))
@@ -428,4 +513,7 @@ def corpus():
              "forbidden": [["+", 0, ["1", "+"]]], "request": ["->", "int", "int"], "max_depth": 3, "min_var": 1, "n_gram": 2,
              "recursive": False, "const_types": [], "mode": "depth", "nseed": 1},
             {"prims": [["+", ["->", "int", ["->", "int", "int"]]], ["1", "int"]], "forbidden": [], "request": ["->", "int", ["->", "bool", "int"]],
-             "max_depth": 3, "min_var": 0, "n_gram": 2, "recursive": False, "const_types": [], "mode": "infinite", "nseed": 2}]
+             "max_depth": 3, "min_var": 0, "n_gram": 2, "recursive": False, "const_types": [], "mode": "infinite", "nseed": 2},
+            # witness of the open finding C01-F5: CFG.infinite, the single program (f true), programs() = -1
+            {"prims": [["f", ["->", "bool", "int"]], ["true", "bool"]], "forbidden": [], "request": "int",
+             "max_depth": 3, "min_var": 0, "n_gram": 2, "recursive": False, "const_types": [], "mode": "infinite", "nseed": 3}]
